@@ -596,6 +596,56 @@ func (c16) RunCase(c fw.Case, env *fw.Env) *fw.CaseResult {
 			res.Stat("post_restart_audits", 1)
 		}
 	}
+	// ---- finale: both tenants fill an equally named collection up to exactly their own point quota, at
+	// the same time and in small steps. Every insert that still fits the tenant's OWN quota must be
+	// accepted however busy the other tenant is, the first one beyond it must be refused.
+	if len(res.Violations) == 0 && aOK && bOK {
+		var fwg sync.WaitGroup
+		for _, t := range []*tenantRun{A, B} {
+			fwg.Add(1)
+			go func(t *tenantRun) {
+				defer fwg.Done()
+				cl := t.clients[0]
+				if lr := cl.Do("GET", "/v2/collections", nil); lr.Status == 200 {
+					if arr, ok := lr.JSON["collections"].([]any); ok {
+						for _, e := range arr {
+							if m, ok := e.(map[string]any); ok {
+								cl.Do("DELETE", "/v2/collections/"+fmt.Sprint(m["id"]), nil)
+							}
+						}
+					}
+				}
+				if r := cl.Do("POST", "/v2/collections", map[string]any{"id": "quotarace", "indexSchema": c16Schema()}); r.Status != 200 {
+					t.violate("status", "finale-create", fmt.Sprintf("finale: creating a collection after deleting all others answered %d %s", r.Status, trimBody(r.Body)))
+					return
+				}
+				quota := int(t.plan.MaxCollectionPointCount)
+				stored := 0
+				seq := 0
+				for stored < quota {
+					n := min(1+t.rng.IntN(4), quota-stored)
+					pts := make([]map[string]any, n)
+					for i := range pts {
+						seq++
+						pts[i] = map[string]any{"_id": fmt.Sprintf("%08x-%04x-4000-8000-%012x", 0xfeed0000+len(t.user), len(t.name), seq), "n": seq, "s": "q", "vec": []float64{0.5, float64(seq)}}
+					}
+					r := cl.Do("POST", "/v2/collections/quotarace/points", map[string]any{"points": pts})
+					fr, _ := r.JSON["failedRanges"].([]any)
+					if r.Status != 200 || len(fr) > 0 {
+						t.violate("quota", "finale-insert-within-own-quota-refused", fmt.Sprintf("finale: this tenant holds %d of its %d points; an insert of %d more answered %d %s while the other tenant was inserting into its own collection of the same name", stored, quota, n, r.Status, trimBody(r.Body)))
+						return
+					}
+					stored += n
+				}
+				r := cl.Do("POST", "/v2/collections/quotarace/points", map[string]any{"points": []map[string]any{{"_id": fmt.Sprintf("%08x-%04x-4000-8000-%012x", 0xfeed0000+len(t.user), len(t.name), 999999), "n": 0, "s": "q", "vec": []float64{0.5, 0.5}}}})
+				if r.Status == 200 {
+					t.violate("quota", "finale-insert-beyond-quota-accepted", fmt.Sprintf("finale: an insert beyond the quota of %d points answered %d %s", quota, r.Status, trimBody(r.Body)))
+				}
+			}(t)
+		}
+		fwg.Wait()
+		res.Stat("finale_concurrent_fills_to_the_quota", 1)
+	}
 	if p := httpx.Sink.Panics.Load(); p > 0 {
 		line, stack := httpx.Sink.Snapshot()
 		res.Violate("server-panic", "C16:server-panic", fmt.Sprintf("the server recovered %d panics during the history: %s\n%s", p, line, stack), nil)
